@@ -402,7 +402,14 @@ def run(case):
             dv0 = np.abs(vol.reshape(-1) - want0) / amp
             # (the pasted fragment is a box of the template's own shape around the molecule: the corners of the
             #  rotated template outside it are cut, where the stipulated templates are < 1e-3 of their peak)
-            bad0 = int(((dv0 > 2e-3) & ~near & ~rim).sum())
+            #  quick seed 6 met a template with 2.08e-3 of its peak at such a corner, one voxel outside the pasted box;
+            #  voxels are therefore judged against the template only where they certainly lie inside the pasted box
+            #  (|x - p| <= shape/2 - 1), must be empty where they certainly lie outside (|x - p| > shape/2 + 1), and
+            #  the one-voxel shell in between - where the statement allows truncation - is not judged)
+            off_ = np.abs(xs - ppx)
+            infrag = np.all(off_ <= np.asarray(shape) / 2 - 1, axis=1)
+            outfrag = np.any(off_ > np.asarray(shape) / 2 + 1, axis=1)
+            bad0 = int(((dv0 > 2e-3) & ~near & ~rim & infrag).sum()) + int((np.abs(vol.reshape(-1)[outfrag]) > 1e-6 * amp).sum())
             case.maxobs("max_general_order0_mismatch_voxels", bad0)
             case.decided += len(xs) // 16
             case.check(bad0 == 0, "general pose (order 0): simulated voxels are not the nearest template voxels", None,
